@@ -713,6 +713,77 @@ def c08():
     return out
 
 
+# ---- C14: array filters against reference semantics (list operations) ----
+def _show(xs):
+    return "|".join("nil" if x is None else str(x) for x in xs)
+
+
+SHOW = "{% for e in r %}{% if e == nil %}nil{% else %}{{ e }}{% endif %}{% unless forloop.last %}|{% endunless %}{% endfor %}"
+
+
+def c14():
+    out = []
+    pools = [[1, 2, 2, None, 3], ["b", "a", None, "a"], [None, None], [5], []]
+    arrays = []
+    for pool in pools:
+        for n in range(0, min(5, len(pool) + 1)):
+            for comb in itertools.permutations(pool, n):
+                arrays.append(list(comb))
+    seen, uniq_arrays = set(), []
+    for a in arrays:
+        k = json.dumps(a)
+        if k not in seen:
+            seen.add(k)
+            uniq_arrays.append(a)
+    for a in uniq_arrays[:400]:
+        d = {"a": a}
+        nonnil = [x for x in a if x is not None]
+        srt = sorted(nonnil) + [None] * (len(a) - len(nonnil))
+        out.append(R("{% assign r = a | sort %}" + SHOW, {"output": _show(srt)}, d, "sort: non-decreasing, nil last, a permutation"))
+        out.append(SAME("{% assign r = a | sort %}" + SHOW, "{% assign r = a | sort | sort %}" + SHOW, d, "sort is idempotent"))
+        out.append(R("{% assign r = a | reverse %}" + SHOW, {"output": _show(list(reversed(a)))}, d))
+        u = []
+        for x in a:
+            if x not in u:
+                u.append(x)
+        out.append(R("{% assign r = a | uniq %}" + SHOW, {"output": _show(u)}, d, "uniq keeps first occurrences in order"))
+        out.append(R("{% assign r = a | compact %}" + SHOW, {"output": _show(nonnil)}, d, "compact removes exactly the nils"))
+        out.append(R("{{ a | size }}|{{ a | concat: a | size }}", {"output": f"{len(a)}|{2 * len(a)}"}, d))
+        out.append(R("{% assign r = a | concat: b %}" + SHOW, {"output": _show(a + [9, None])}, {"a": a, "b": [9, None]}))
+        if a:
+            out.append(R("{% if f == a[0] %}1{% endif %}{% if l == a[-1] %}1{% endif %}".replace("f ==", "first ==").replace("l ==", "last =="), {"no_panic": True}, d))
+            out.append(SAME("{% assign r = a | first %}{% if r == nil %}nil{% else %}{{ r }}{% endif %}", "{% assign r = a[0] %}{% if r == nil %}nil{% else %}{{ r }}{% endif %}", d, "first agrees with indexing"))
+            out.append(SAME("{% assign r = a | last %}{% if r == nil %}nil{% else %}{{ r }}{% endif %}", "{% assign r = a[-1] %}{% if r == nil %}nil{% else %}{{ r }}{% endif %}", d, "last agrees with indexing"))
+        strs = ["" if x is None else str(x) for x in a]
+        out.append(R("{{ a | join: ',' }}", {"output": ",".join(strs)}, d))
+    # case-insensitive sort; strings differing only in case keep their relative order only up to the key
+    for a in (["b", "A", "a", "C"], ["B", "b", None, "a"], ["x"], []):
+        nonnil = [x for x in a if x is not None]
+        keys = sorted(x.lower() for x in nonnil) + ["nil"] * (len(a) - len(nonnil))
+        out.append(R("{% assign r = a | sort_natural %}{% for e in r %}{% if e == nil %}nil{% else %}{{ e | downcase }}{% endif %}{% unless forloop.last %}|{% endunless %}{% endfor %}",
+                     {"output": "|".join(keys)}, {"a": a}, "sort_natural orders case-insensitively, nil last"))
+    # objects: map / where / sort by property / compact by property; stability of sort
+    objs = [{"k": 2, "t": "a"}, {"k": 1, "t": "b"}, {"k": 2, "t": "c"}, {"t": "d"}, {"k": None, "t": "e"}, {"k": 1, "t": "f"}, {"k": False, "t": "g"}]
+    for n in range(0, 5):
+        for comb in itertools.permutations(objs, n):
+            o = list(comb)
+            if len(out) > 9000:
+                break
+            d = {"o": o}
+            has = [x for x in o if "k" in x]
+            if not any(x.get("k") is False for x in o):     # (`false == nil` holds in Liquid, so SHOW cannot tell them apart)
+                out.append(R("{% assign r = o | map: 'k' %}" + SHOW, {"output": _show([x["k"] for x in has])}, d, "map returns, in order, the property of the objects that have it"))
+            out.append(R("{{ o | map: 'k' | size }}", {"output": str(len(has))}, d, "map keeps exactly the objects that have the property"))
+            out.append(R("{{ o | where: 'k', 2 | map: 't' | join: '' }}", {"output": "".join(x["t"] for x in o if x.get("k") == 2 and x.get("k") is not False and not isinstance(x.get("k"), bool))}, d, "where keeps, in order, the objects whose property equals the target"))
+            out.append(R("{{ o | where: 'k' | map: 't' | join: '' }}", {"output": "".join(x["t"] for x in o if x.get("k") not in (None, False))}, d, "where without target keeps the objects whose property is truthy"))
+            out.append(R("{{ o | compact: 'k' | map: 't' | join: '' }}", {"output": "".join(x["t"] for x in o if x.get("k") is not None)}, d, "compact by property removes the objects whose property is nil or missing"))
+            ints = [x for x in o if isinstance(x.get("k"), int) and not isinstance(x.get("k"), bool)]
+            if len(ints) == len(o):
+                st = sorted(o, key=lambda x: x["k"])
+                out.append(R("{{ o | sort: 'k' | map: 't' | join: '' }}", {"output": "".join(x["t"] for x in st)}, d, "sort by property is stable"))
+    return out
+
+
 def c09():
     stateful = "{% assign a = x %}{% increment c %}{% cycle 'p', 'q', 'r' %}{% for i in (1..3) %}{% ifchanged %}{{ i | divided_by: 2 }}{% endifchanged %}{% if i == 2 %}{% break %}{% endif %}{% endfor %}{{ a }}{% capture k %}{{ a }}!{% endcapture %}{{ k }}{% decrement c %}"
     failing_midway = "{% increment c %}{% cycle 'p', 'q' %}{% for i in (1..3) %}{{ i }}{% if i == 2 %}{% break %}{{ missing }}{% endif %}{% endfor %}{% capture k %}{{ x | divided_by: 0 }}{% endcapture %}"
@@ -732,7 +803,7 @@ def c12():
     return [{"kind": "conversions"}]
 
 
-BATTERIES = {"C08": c08, "C09": c09, "C11": c11, "C12": c12, "C04": c04_all, "C05": c05, "C06": c06, "C07": c07, "C10": c10, "C13": c13, "C15": c15, "C18": c18}
+BATTERIES = {"C14": c14, "C08": c08, "C09": c09, "C11": c11, "C12": c12, "C04": c04_all, "C05": c05, "C06": c06, "C07": c07, "C10": c10, "C13": c13, "C15": c15, "C18": c18}
 
 
 def battery(prop, thorough=False):
